@@ -60,6 +60,15 @@ pub struct ChainFacts {
   pub slot_on_source: bool,
   /// a module (not an error) is stored under a redirect source of the chain
   pub module_on_source: bool,
+  /// the redirect sources of the chain that hold a module
+  pub modules_on_source: Vec<ModuleSpecifier>,
+}
+
+impl ChainFacts {
+  /// a member of the chain is both a redirect source and the key of an entry (error or module)
+  pub fn entry_on_source(&self) -> bool {
+    self.slot_on_source || self.module_on_source
+  }
 }
 
 pub fn chain_facts(g: &ModuleGraph, slot_keys: &HashSet<ModuleSpecifier>, s: &ModuleSpecifier) -> ChainFacts {
@@ -76,6 +85,7 @@ pub fn chain_facts(g: &ModuleGraph, slot_keys: &HashSet<ModuleSpecifier>, s: &Mo
         f.slot_on_source = true;
       } else {
         f.module_on_source = true;
+        f.modules_on_source.push(cur.clone());
       }
     }
     f.hops += 1;
@@ -88,8 +98,12 @@ pub fn chain_facts(g: &ModuleGraph, slot_keys: &HashSet<ModuleSpecifier>, s: &Mo
   f
 }
 
-fn classify(f: &ChainFacts) -> &'static str {
-  if f.module_on_source {
+/// `stale_final`: specifiers a lockfile lists as redirect sources although the loader reported them as the
+/// final specifier of a module it returned for another request (finding F35)
+fn classify(f: &ChainFacts, stale_final: &HashSet<ModuleSpecifier>) -> &'static str {
+  if f.module_on_source && f.modules_on_source.iter().all(|m| stale_final.contains(m)) {
+    "module-reported-as-final-under-stale-lockfile-redirect"
+  } else if f.module_on_source {
     "module-stored-under-redirect-source"
   } else if f.slot_on_source {
     "slot-on-redirect-source"
@@ -110,6 +124,8 @@ pub struct Case {
   pub ctx: Ctx,
   pub desc: Value,
   pub universe: Vec<ModuleSpecifier>,
+  /// see `classify`
+  pub stale_final: HashSet<ModuleSpecifier>,
 }
 
 /// requests + implementation answers + oracle for one graph
@@ -180,7 +196,7 @@ pub fn run_case(
       bad.push(format!("resolve not idempotent: {} -> {} -> {}", s, r1, r2));
     }
     if !bad.is_empty() && case.in_scope {
-      let shape = classify(&facts);
+      let shape = classify(&facts, &case.stale_final);
       report.fail(
         "oracle",
         shape,
@@ -226,16 +242,9 @@ pub fn run_case(
       };
       let got = listed.get(src.as_str()).cloned();
       if got != expect {
-        let shape = if facts.module_on_source {
-          "module-stored-under-redirect-source"
-        } else if facts.slot_on_source {
-          "slot-on-redirect-source"
-        } else if facts.cyclic {
-          "redirect-cycle"
-        } else if facts.hops >= RESOLVE_CAP_HOPS {
-          "resolve-cap"
-        } else {
-          "specifiers-disagrees-with-walk"
+        let shape = match classify(&facts, &case.stale_final) {
+          "lookup-disagrees-with-walk" => "specifiers-disagrees-with-walk",
+          other => other,
         };
         report.fail(
           "oracle",
@@ -267,9 +276,10 @@ pub fn run_case(
           report.evaluations += 1;
           report.count("resolve-dependency:referrer-is-redirect-source");
           if got3 != got2 {
+            let f3 = chain_facts(g, &slot_keys, src);
             report.fail(
               "oracle",
-              "resolve-dependency-differs-by-referrer-alias",
+              if f3.module_on_source { classify(&f3, &case.stale_final) } else { "resolve-dependency-differs-by-referrer-alias" },
               format!("resolve_dependency({:?}, prefer_types={}) from {} = {:?}; from its redirect source {} = {:?}", text, prefer, m.specifier(), got2, src, got3),
               json!({"case": case.desc}),
             );
@@ -317,7 +327,7 @@ pub fn run_case(
           }
         };
         if got != expect {
-          let mut shape = classify(&facts);
+          let mut shape = classify(&facts, &case.stale_final);
           if shape == "lookup-disagrees-with-walk" {
             // the types dependency chain may be the long one
             shape = "resolve-dependency-disagrees-with-walk";
@@ -327,7 +337,7 @@ pub fn run_case(
                   if let Some(Resolution::Ok(r)) = js.maybe_types_dependency.as_ref().map(|d| &d.dependency) {
                     let f2 = chain_facts(g, &slot_keys, &r.specifier);
                     if f2.slot_on_source || f2.cyclic || f2.hops >= RESOLVE_CAP_HOPS {
-                      shape = classify(&f2);
+                      shape = classify(&f2, &case.stale_final);
                     }
                   }
                 }
@@ -431,7 +441,7 @@ pub fn run(tier: &str, seed: u64) -> Report {
     // a redirect whose source has a slot cannot come from a build or from lockfile seeding of
     // a fresh graph; such tables validate the model only
     let in_scope = (0..3).all(|i| !g.redirects.contains_key(&specs[i]));
-    let mut case = Case { in_scope, graph: g, ctx: Ctx::default(), desc: desc.clone(), universe: specs.clone() };
+    let mut case = Case { in_scope, graph: g, ctx: Ctx::default(), desc: desc.clone(), universe: specs.clone(), stale_final: HashSet::new() };
     descs.push(desc);
     let id = descs.len() - 1;
     run_case(&mut report, &mut case, &mut reqs, &mut imps, &mut sets, &mut origin, id);
@@ -469,7 +479,7 @@ pub fn run(tier: &str, seed: u64) -> Report {
       }
     };
     let desc = json!({"source": "built-world", "world_seed_index": wi, "world": w.describe()});
-    let mut case = Case { in_scope: true, graph: g, ctx: Ctx::default(), desc: desc.clone(), universe: w.specs.clone() };
+    let mut case = Case { in_scope: true, graph: g, ctx: Ctx::default(), desc: desc.clone(), universe: w.specs.clone(), stale_final: HashSet::new() };
     descs.push(desc);
     let id = descs.len() - 1;
     if wi < 2 {
@@ -497,8 +507,11 @@ pub fn run(tier: &str, seed: u64) -> Report {
           let cands: Vec<usize> = (0..w.specs.len()).filter(|u| *u != *t && is_plain_module(*u)).collect();
           if !cands.is_empty() {
             let u = cands[wr.below(cands.len())];
-            if !seeds.iter().any(|(a, _)| *a == w.specs[*t].to_string()) {
-              seeds.push((w.specs[*t].to_string(), w.specs[u].to_string()));
+            // no seed starts where another ends: a lockfile whose redirects form a cycle is a different
+            // input (section (b) covers every cyclic table; finding F11)
+            let (ts, us) = (w.specs[*t].to_string(), w.specs[u].to_string());
+            if !seeds.iter().any(|(a, b)| *a == ts || *a == us || *b == ts) {
+              seeds.push((ts, us));
             }
           }
         }
@@ -519,7 +532,16 @@ pub fn run(tier: &str, seed: u64) -> Report {
       continue;
     };
     let desc = json!({"source": "built-world-with-lockfile-redirects", "lockfile_redirects": seeds, "world": w.describe()});
-    let mut case = Case { in_scope: true, graph: g, ctx: Ctx::default(), desc: desc.clone(), universe: w.specs.clone() };
+    // seeded sources that the loader names as the final specifier of a module returned for another request
+    let stale_final: HashSet<ModuleSpecifier> = (0..w.specs.len())
+      .filter(|t| seeds.iter().any(|(a, _)| *a == w.specs[*t].to_string()))
+      .filter(|t| w.resp.iter().enumerate().any(|(i, r)| i != *t && matches!(r, Resp::Module { final_spec, .. } if *final_spec == *t)))
+      .map(|t| w.specs[t].clone())
+      .collect();
+    if !stale_final.is_empty() {
+      report.count("built-worlds-with-lockfile-redirects:seeded-source-reported-as-final");
+    }
+    let mut case = Case { in_scope: true, graph: g, ctx: Ctx::default(), desc: desc.clone(), universe: w.specs.clone(), stale_final };
     descs.push(desc);
     let id = descs.len() - 1;
     run_case(&mut report, &mut case, &mut reqs, &mut imps, &mut sets, &mut origin, id);
